@@ -1,8 +1,27 @@
-import TD.C05.Model
+import TD.C05.LemWriter
+/-!
+C05 — property theorems (LIS physical records: what is written is what is read, at any position; TIF stripping).
+
+`Spec.lean`  : LIS-79 layout `encode`, positions `tellOf`, abstract reader `absStep/absRun`.
+`Model.lean` : the code as it is (writer, reader state machine, strip_tif).
+-/
 namespace TD.C05
 
-/-- placeholder while the harness is brought up (replaced by the property theorems) -/
-theorem encode_nil_off (L : Layout) (h : L.tif = .off) : encode L [] = [] := by
-  simp [encode, encRecs, eofMarkers, tifMarker, h]
+/-- **writer_layout.** For every valid layout (TIF off or normal), every list of logical records made of bytes, and —
+with TIF markers — a file shorter than 2^32 bytes, `FileWrite(...)`, `write(r)` for every record and `close()` produce
+exactly the LIS-79 encoding of the records (header length/attributes with successor and predecessor bits, trailer fields
+with the running record number, the file number, the checksum; TIF markers with type/previous/next and the two EOF
+markers), and the value returned by the i-th `write` is the sum of the sizes of the records before it. -/
+theorem writer_layout (L : Layout) (rs : List Bytes) (hL : L.Valid) (hbe : L.tif ≠ .be)
+    (hb : ∀ r ∈ rs, ∀ x ∈ r, x < 256) (hsz : L.tif = .le → fileSize L rs < 4294967296) :
+    writeFile (L.tif != .off) L.prMax L.hasRec L.fileNum L.hasChk rs
+      = .ok (encode L rs, (List.range rs.length).map (tellOf L rs)) :=
+  writeFile_spec L rs hL hbe hb hsz
+
+/-- the hypotheses of `writer_layout` are satisfiable by a non-trivial case: PR length 12 with a record number
+trailer (payload 6), TIF on, a 13-byte record (three PRs) and a 2-byte record -/
+example : let L : Layout := ⟨12, true, none, false, .le⟩
+    L.Valid ∧ L.tif ≠ .be ∧ (L.tif = .le → fileSize L [[1,2,3,4,5,6,7,8,9,10,11,12,13],[1,2]] < 4294967296)
+    ∧ tellOf L [[1,2,3,4,5,6,7,8,9,10,11,12,13],[1,2]] 1 = 67 := by decide
 
 end TD.C05
